@@ -309,7 +309,8 @@ QuadraticPrior.cxx:244 (`compute_value`), :317 (`compute_gradient`), :405 (`comp
 :554 (`add_multiplication_with_approximate_Hessian`), :621 (`accumulate_Hessian_times_input`),
 RelativeDifferencePrior.cxx:315/390/473/552, LogcoshPrior.cxx:262/332/415/485/553.  The grid spacing is that of
 `current_image_estimate` (value, gradient, Hessian row, surrogate) resp. of `output` (approximate Hessian, Hessian times input).
-Nothing ever empties `weights` again except `set_weights` with an empty array and `set_defaults`: in particular `set_up` does not. -/
+`set_up` empties `weights` again unless they were supplied by the user (repair C09-4), so that default weights always belong to the
+grid spacing of the current target. -/
 
 /-- the members of a neighbourhood prior that the API functions read or write -/
 structure NbPrior (K : Type) where
@@ -324,6 +325,8 @@ structure NbPrior (K : Type) where
   wb : Box
   w : Img K
   kappa : Option (Img K)
+  /-- `weights_set_by_user`: the weights were given with `set_weights` (non-empty array) or the `weights :=` keyword -/
+  wUser : Bool := false
 
 /-- the index range of an empty `Array<3,float>` as the harness prints it -/
 def emptyBox : Box := ⟨0, -1, 0, -1, 0, -1⟩
@@ -354,7 +357,7 @@ def NbPrior.call {α : Type} (dflt : K → K → K → Img K) (o : NbPrior K) (s
   (o', loops o')
 
 /-- `set_weights(w)`: `this->weights = w` (an empty array makes the next call compute the default weights again) -/
-def NbPrior.setWeights (o : NbPrior K) (wb : Box) (w : Img K) : NbPrior K := { o with wb := wb, w := w }
+def NbPrior.setWeights (o : NbPrior K) (wb : Box) (w : Img K) : NbPrior K := { o with wb := wb, w := w, wUser := !weightsEmpty wb }
 /-- `set_kappa_sptr` -/
 def NbPrior.setKappa (o : NbPrior K) (κ : Option (Img K)) : NbPrior K := { o with kappa := κ }
 /-- `set_penalisation_factor` (GeneralisedPrior.inl:41) -/
@@ -363,9 +366,9 @@ def NbPrior.setPf (o : NbPrior K) (pf : K) : NbPrior K := { o with pf := pf }
 def NbPrior.setGamma (o : NbPrior K) (v : K) : NbPrior K := { o with gamma := v }
 def NbPrior.setEps (o : NbPrior K) (v : K) : NbPrior K := { o with eps := v }
 def NbPrior.setScalar (o : NbPrior K) (v : K) : NbPrior K := { o with scalar := v }
-/-- `set_up(target)` (QuadraticPrior.cxx:106-113, RelativeDifferencePrior.cxx:110-117): only `_already_set_up = true`; the weights — also
-    those computed lazily from the grid spacing of an EARLIER target — stay -/
-def NbPrior.setUp (o : NbPrior K) : NbPrior K := o
+/-- `set_up(target)` (after repair C09-4): `if (!weights_set_by_user) weights.recycle();` — default weights are computed again, from
+    the grid spacing of the new target, at the next use; user weights stay -/
+def NbPrior.setUp (o : NbPrior K) : NbPrior K := if o.wUser then o else { o with wb := emptyBox }
 
 /-! ### weights given with the `weights :=` keyword (`post_processing`) -/
 
@@ -404,7 +407,8 @@ def parsedWeights (a : List (List (List K))) : Option (Box × Img K) :=
 def NbPrior.parsed (kind : Nat) (only2D : Bool) (pf γ ε s : K) (a : List (List (List K))) (κ : Option (Img K)) : Option (NbPrior K) :=
   match parsedWeights a with
   | none => none
-  | some (wb, w) => some { kind := kind, only2D := only2D, pf := pf, gamma := γ, eps := ε, scalar := s, wb := wb, w := w, kappa := κ }
+  | some (wb, w) => some { kind := kind, only2D := only2D, pf := pf, gamma := γ, eps := ε, scalar := s, wb := wb, w := w, kappa := κ,
+                           wUser := !weightsEmpty wb }
 
 /-! ### PLSPrior -/
 
